@@ -8,7 +8,9 @@
 (*                                                                         *)
 (* A directory content is a set of abstract plot files.  A file has a name *)
 (* (ordinal, key, bit length; current or legacy format), a header kind, a  *)
-(* directory, a progress (plotted or not) and possibly its A companion.    *)
+(* directory, a recorded progress (nothing; table A complete and table B   *)
+(* begun - a plot stopped between its passes; plotted) and possibly its A  *)
+(* companion.                                                              *)
 (* The keeper must index, exactly once, every GOOD file - well-formed      *)
 (* header that matches the name, key owned by the wallet with that         *)
 (* ordinal - with state ready or registered from its progress; must index  *)
@@ -27,7 +29,8 @@ OrdOf(k) == CASE k = "k0" -> 0 [] k = "k1" -> 1 [] k = "k2" -> 2 [] OTHER -> 7
 HdrKinds == {"ok", "otherOwnedKey", "foreignKey", "otherBL", "badCode", "badVersion", "shortHeader", "typeA", "badPkHash"}
 Dirs == {"d1", "d2"}
 
-File == [key : Keys, ordOK : BOOLEAN, bl : {24, 26}, legacy : BOOLEAN, hdr : HdrKinds, d : Dirs, plotted : BOOLEAN, hasA : BOOLEAN]
+File == [key : Keys, ordOK : BOOLEAN, bl : {24, 26}, legacy : BOOLEAN, hdr : HdrKinds, d : Dirs, prog : {"none", "preplotted", "plotted"}, hasA : BOOLEAN]
+Plotted(f) == f.prog = "plotted"
 
 \* (a missing table A of an unplotted space is recreated empty and plotted again: mirrored detail)
 Good1(f) == /\ f.hdr = "ok" /\ f.key \in Owned
@@ -42,9 +45,9 @@ WellFormed(fs) == \A f, g \in fs : (f.d = g.d /\ f.key = g.key /\ f.bl = g.bl /\
 Good(fs, f) == Good1(f) /\ ~Shadowed(fs, f)
 ExpectedIndex(fs) == {[key |-> s[1], bl |-> s[2]] : s \in {SpaceOf(f) : f \in {g \in fs : Good(fs, g)}}}
 \* its state comes from the progress of the file that is loaded (any good file of that space)
-StateOK(fs, e, st) == \E f \in fs : Good(fs, f) /\ SpaceOf(f) = <<e.key, e.bl>> /\ st = (IF f.plotted THEN "ready" ELSE "registered")
+StateOK(fs, e, st) == \E f \in fs : Good(fs, f) /\ SpaceOf(f) = <<e.key, e.bl>> /\ st = (IF Plotted(f) THEN "ready" ELSE "registered")      \* ready only from table B's final checkpoint
 \* proofs may be served only for a space whose loaded file is good and plotted
-MayServe(fs, e) == \E f \in fs : Good(fs, f) /\ f.plotted /\ SpaceOf(f) = <<e.key, e.bl>>
+MayServe(fs, e) == \E f \in fs : Good(fs, f) /\ Plotted(f) /\ SpaceOf(f) = <<e.key, e.bl>>
 
 VARIABLE content
 \* every content of one or two files (bit length 24 for the exhaustive run) is an initial state; nothing moves
